@@ -54,7 +54,7 @@ type vStep struct {
 }
 
 // commands that dedicated runs single out (parameter "cmdname")
-var vNamedCmds = []string{"", "MODE", "NICK", "PING", "JOIN", "QUIT", "KILL", "PART", "PRIVMSG"}
+var vNamedCmds = []string{"", "MODE", "NICK", "PING", "JOIN", "QUIT", "KILL", "PART", "PRIVMSG", "SVSHOLD"}
 
 var vRoleNames = []string{"unregistered", "client", "oper", "services"}
 
